@@ -280,7 +280,13 @@ class RangesAssembler:
                 dsp.add_data(sh.SELF, sh.inf(2, 0))
             self.inputs[sh.SELF] = ists
         if list(self.inputs) != [self.output]:
-            dsp.add_function(None, self, self.inputs or None, [self.output])
+            # Cells read from the solution are assembled after the supplied
+            # ranges have handed their values over to them (see INV).
+            dsp.add_function(
+                None, self, self.inputs or None, [self.output],
+                inp_weight={sh.SELF: sh.inf(1, 0)}
+                if sh.SELF in self.inputs else None
+            )
 
             if len(self.outputs) >= 1:
                 inputs = [self.output]
